@@ -70,6 +70,52 @@ def impl(c):
     # 1. dict
     back = cls.from_dict(json.loads(json.dumps(obj.to_dict())))
     if strip(_canon(G, kind, back)) != orig_nw: A.append("dict round trip differs: %s" % (strip(_canon(G, kind, back)),))
+    # 1b. the dictionary itself: content = the model's dictionary form (C15_dict_*), and from_dict on well-typed but invalid variants = the model's from_dict
+    try:
+        dct = obj.to_dict(); gd = dct if kind == "graph" else dct["graph"]
+        wl = ["dictwrite", kidx] + common.enc_graph(G) + (([len(c["ori"])] + [x for p in c["ori"] for x in p]) if kind == "orientation" else [])
+        mw = [int(x) for x in common.run_model([wl])[0]]; ne = mw[0]; el = [mw[1 + 3 * i:4 + 3 * i] for i in range(ne)]
+        exp_g = {"vertices": list(names), "edges": [[names[a], names[b], k] for a, b, k in el]}
+        if gd != exp_g: A.append("to_dict graph part %s differs from the model's dictionary form %s" % (gd, exp_g))
+        if kind == "divisor" and dct["degrees"] != {names[i]: c["D"][i] for i in range(n)}: A.append("to_dict degrees %s" % (dct["degrees"],))
+        if kind == "firingscript" and {k: v for k, v in dct["script"].items() if v != 0} != {names[i]: c["D"][i] for i in range(n) if c["D"][i] != 0}: A.append("to_dict script %s" % (dct["script"],))
+        if kind == "orientation":
+            rest = mw[1 + 3 * ne:]; ps = [[names[rest[1 + 2 * i]], names[rest[2 + 2 * i]]] for i in range(rest[0])]
+            if [list(p) for p in dct["orientations"]] != ps: A.append("to_dict orientations %s differ from the model's %s" % (dct["orientations"], ps))
+        # invalid variants (still well-typed): unknown endpoint, loop, non-positive multiplicity, repeated pair (merges), vertex dropped, payload on unknown / repeated / non-edge
+        import copy
+        variants = []
+        for _ in range(6):
+            v = copy.deepcopy(dct); g2 = v if kind == "graph" else v["graph"]; how = rng.choice(["unknown", "loop", "mult", "repeat", "dropv", "payload", "payload", "none"])
+            if how == "unknown" and g2["edges"]: g2["edges"][rng.randrange(len(g2["edges"]))][rng.randrange(2)] = "zz_unknown"
+            elif how == "loop" and g2["edges"]: e = g2["edges"][rng.randrange(len(g2["edges"]))]; e[1] = e[0]
+            elif how == "mult" and g2["edges"]: g2["edges"][rng.randrange(len(g2["edges"]))][2] = rng.choice([0, -1, 2 ** 66])
+            elif how == "repeat" and g2["edges"]: e = list(rng.choice(g2["edges"])); g2["edges"].append([e[1], e[0], 3])
+            elif how == "dropv" and g2["vertices"]: g2["vertices"].pop(rng.randrange(len(g2["vertices"])))
+            elif how == "payload":
+                if kind == "divisor" and n: v["degrees"]["zz_unknown"] = 1
+                elif kind == "firingscript" and n: v["script"][rng.choice(["zz_unknown", names[0]])] = 4
+                elif kind == "orientation":
+                    k2 = rng.choice(["dup", "rev", "nonedge", "unknown"])
+                    if k2 == "dup" and v["orientations"]: v["orientations"].append(list(v["orientations"][0]))
+                    elif k2 == "rev" and v["orientations"]: v["orientations"].append(list(v["orientations"][0])[::-1])
+                    elif k2 == "unknown": v["orientations"].append([names[0] if n else "x", "zz_unknown"])
+                    elif n >= 2: v["orientations"].append([names[0], names[-1]])
+            variants.append(v)
+        lines = []; got = []
+        for v in variants:
+            g2 = v if kind == "graph" else v["graph"]
+            tok = ["dictread", kidx, len(g2["vertices"])] + [x for nm in g2["vertices"] for x in _enc_str(nm)] + [len(g2["edges"])] + [x for e in g2["edges"] for x in _enc_str(e[0]) + _enc_str(e[1]) + [e[2]]]
+            if kind == "divisor": tok += [len(v["degrees"])] + [x for k2, z in v["degrees"].items() for x in _enc_str(k2) + [z]]
+            elif kind == "firingscript": tok += [len(v["script"])] + [x for k2, z in v["script"].items() for x in _enc_str(k2) + [z]]
+            elif kind == "orientation": tok += [len(v["orientations"])] + [x for p in v["orientations"] for x in _enc_str(p[0]) + _enc_str(p[1])]
+            lines.append(tok)
+            try: r2 = cls.from_dict(copy.deepcopy(v)); got.append(strip(_canon(G, kind, r2)))
+            except Exception: got.append(None)
+        for v, gt, m in zip(variants, got, common.run_model(lines)):
+            mp = _parse_model(m, kind)
+            if mp != gt: A.append("from_dict(%s): implementation %s, model %s" % (json.dumps(v)[:200], gt, mp))
+    except Exception as e: A.append("dictionary-form scenario raised %s: %s" % (type(e).__name__, str(e)[:120]))
     dp = CFDataProcessor()
     with tempfile.TemporaryDirectory() as td:
         pj, pt = os.path.join(td, "o.json"), os.path.join(td, "o.txt")
